@@ -191,7 +191,8 @@ def histories(draw):
             if unknown in names:
                 unknown = None
         insts.append(dict(D=D, overrides=ov, unknown=unknown, no_options=draw(st.sampled_from([False] * 6 + [True])),
-                          spelling=draw(st.sampled_from(["a1", "a2"]))))
+                          spelling=draw(st.sampled_from(["a1", "a2"])),
+                          geom=draw(st.sampled_from(["inner", "inner", "tight", "x0_on_bound", "x0_outside_plausible", "near_margin", "log"]))))
     # operation order: construct each instance once, run some of them, in a generated interleaving
     ops = []
     for i in range(n_inst):
@@ -253,6 +254,20 @@ def run_history(case):
             x0 = np.full(shape, 0.5)
             lb, ub = np.full(shape, -5.0), np.full(shape, 5.0)
             plb, pub = np.full(shape, -2.0), np.full(shape, 2.0)
+            geom = inst.get("geom", "inner")
+            # geometries in which the constructor repairs x0 / plausible bounds (the repairs must not reach the caller's arrays)
+            if geom == "tight":
+                plb, pub = lb.copy(), ub.copy()
+            elif geom == "x0_on_bound":
+                x0 = lb.copy()
+            elif geom == "x0_outside_plausible":
+                x0 = np.full(shape, 4.0)
+            elif geom == "near_margin":
+                plb, pub = lb + 1e-4, ub - 1e-4
+                x0 = ub - 1e-5
+            elif geom == "log":
+                lb, ub = np.full(shape, 0.01), np.full(shape, 1000.0)
+                plb, pub, x0 = np.full(shape, 0.01), np.full(shape, 100.0), np.full(shape, 0.01)
             arrs_before = [a.copy() for a in (x0, lb, ub, plb, pub)]
             err = None
             try:
